@@ -406,3 +406,112 @@ Example ex_print :
   bprint 4 4 5 5 13 13 0 (BAnd [BAtom 0; BOr [BAtom 1; BNot (BAnd [BAtom 2; BAtom 3])]; BNot (BAtom 4)])
   = [TAtom 0; TAnd; TLP; TAtom 1; TOr; TNot; TLP; TAtom 2; TAnd; TAtom 3; TRP; TRP; TAnd; TNot; TAtom 4].
 Proof. reflexivity. Qed.
+
+(* ---------------------------------------------------------------------------------------------
+   Powers *)
+Definition nostar (r : list ptok) : Prop := match r with PStar :: _ => False | _ => True end.
+
+(* reading what was printed gives the tree back (so the text means what the tree means) *)
+Definition power_statement (bp xp own : nat) : Prop :=
+  forall e r, nostar r -> pread (S (psize e)) (pprint bp xp own 0 e ++ r) = Some (e, r).
+
+Definition punparen (bp xp own : nat) (e : pexp) : list ptok :=
+  match e with
+  | PAtom n => [PA n]
+  | PPow b x => pprint bp xp own bp b ++ PStar :: pprint bp xp own xp x
+  end.
+
+Lemma pprint_cases bp xp own enc e :
+  pprint bp xp own enc e = punparen bp xp own e \/
+  (exists b x, e = PPow b x /\ (own <? enc) = true /\ pprint bp xp own enc e = PL :: punparen bp xp own e ++ [PR]).
+Proof.
+  destruct e as [n | b x]; cbn [pprint punparen].
+  - now left.
+  - destruct (own <? enc) eqn:E.
+    + right. exists b, x. repeat split.
+    + now left.
+Qed.
+
+Lemma pread_nostar f b r ts : nostar r ->
+  pprim (pread f) ts = Some (b, r) -> pread (S f) ts = Some (b, r).
+Proof.
+  intros Hr H. cbn [pread]. rewrite H. destruct r as [| [] r']; try reflexivity. destruct Hr.
+Qed.
+
+Section PowerRound.
+  Variables bp xp own : nat.
+  Hypothesis Hb : (own <? bp) = true.
+
+  Lemma punparen_read : forall e F r, psize e <= F -> nostar r ->
+    pread F (punparen bp xp own e ++ r) = Some (e, r).
+  Proof.
+    induction e as [n | b IHb x IHx]; intros F r HF Hr.
+    - destruct F as [| f]; [cbn in HF; lia |].
+      apply pread_nostar; [exact Hr | reflexivity].
+    - cbn [psize] in HF. destruct F as [| f]; [lia |].
+      cbn [punparen]. rewrite <- app_assoc. cbn [app].
+      (* the base: a primary *)
+      assert (Hbase : forall rest, pprim (pread f) (pprint bp xp own bp b ++ rest) = Some (b, rest)).
+      { intro rest. destruct (pprint_cases bp xp own bp b) as [E | [b1 [b2 [Eb [_ E]]]]]; rewrite E.
+        - destruct b as [n | b1 b2]; [reflexivity |].
+          cbn [pprint] in E. rewrite Hb in E. cbn [punparen] in E.
+          exfalso. apply (f_equal (@length ptok)) in E. cbn [length] in E.
+          repeat rewrite app_length in E. cbn [length] in E. repeat rewrite app_length in E. cbn [length] in E. lia.
+        - cbn [app]. rewrite <- app_assoc. cbn [app pprim].
+          rewrite (IHb f (PR :: rest)); [reflexivity | lia | exact I]. }
+      cbn [pread]. rewrite Hbase.
+      (* the exponent *)
+      assert (Hexp : pread f (pprint bp xp own xp x ++ r) = Some (x, r)).
+      { destruct (pprint_cases bp xp own xp x) as [E | [x1 [x2 [Ex [_ E]]]]]; rewrite E.
+        - apply IHx; [lia | exact Hr].
+        - destruct f as [| f']; [lia |].
+          cbn [app]. rewrite <- app_assoc. cbn [app].
+          apply pread_nostar; [exact Hr |]. cbn [pprim].
+          rewrite (IHx f' (PR :: r)); [reflexivity | lia | exact I]. }
+      rewrite Hexp. reflexivity.
+  Qed.
+
+  Lemma pprint_read enc e r : nostar r -> pread (S (psize e)) (pprint bp xp own enc e ++ r) = Some (e, r).
+  Proof.
+    intro Hr. destruct (pprint_cases bp xp own enc e) as [E | [b [x [Ee [_ E]]]]]; rewrite E.
+    - apply punparen_read; [lia | exact Hr].
+    - cbn [app]. rewrite <- app_assoc. cbn [app].
+      apply pread_nostar; [exact Hr |]. cbn [pprim].
+      rewrite (punparen_read e (psize e) (PR :: r)); [reflexivity | lia | exact I].
+  Qed.
+End PowerRound.
+
+Theorem power_holds bp xp own : (own <? bp) = true -> power_statement bp xp own.
+Proof. intros H e r Hr. now apply pprint_read. Qed.
+
+(* (a0 ** a1) ** a2 with a0 = 2, a1 = 2, a2 = 3: 64; printed without parentheses and read by Fortran: 2 ** (2 ** 3) = 256
+   (corpus/C03/power_nested_base.json) *)
+Definition wit_pow_base : pexp := PPow (PPow (PAtom 0) (PAtom 1)) (PAtom 2).
+Definition wit_pow_values (n : nat) : nat := match n with 2 => 3 | _ => 2 end.
+
+Lemma wit_pow_base_print bp xp own : (own <? bp) = false ->
+  pprint bp xp own 0 wit_pow_base = [PA 0; PStar; PA 1; PStar; PA 2].
+Proof.
+  intro H. unfold wit_pow_base. cbn [pprint]. rewrite H.
+  assert (E : (own <? 0) = false) by (destruct own; reflexivity).
+  rewrite E. reflexivity.
+Qed.
+
+Lemma wit_pow_base_values bp xp own : (own <? bp) = false ->
+  pval wit_pow_values wit_pow_base = 64 /\
+  option_map (fun p => pval wit_pow_values (fst p)) (pread (S (psize wit_pow_base)) (pprint bp xp own 0 wit_pow_base)) = Some 256.
+Proof.
+  intro H. rewrite (wit_pow_base_print bp xp own H). split; vm_compute; reflexivity.
+Qed.
+
+Theorem power_refuted bp xp own : (own <? bp) = false -> ~ power_statement bp xp own.
+Proof.
+  intros H S. specialize (S wit_pow_base [] I). rewrite app_nil_r in S.
+  rewrite (wit_pow_base_print bp xp own H) in S. vm_compute in S. discriminate S.
+Qed.
+
+Lemma power_either bp xp own :
+  if own <? bp then power_statement bp xp own else ~ power_statement bp xp own.
+Proof.
+  destruct (own <? bp) eqn:E; [now apply power_holds | now apply power_refuted].
+Qed.
